@@ -59,9 +59,25 @@ func rewriteErrChecks(list []ast.Stmt, oracles map[string]string, atoms map[stri
 			}
 			fail("%s: unsupported call %q", who, src(st))
 		}
-		if is, ok := st.(*ast.IfStmt); ok && is.Init == nil {
+		if is, ok := st.(*ast.IfStmt); ok {
 			cp := *is
-			cp.Cond = fixCond(is.Cond)
+			if as, isAs := is.Init.(*ast.AssignStmt); isAs && len(as.Lhs) == 2 && len(as.Rhs) == 1 && src(as.Lhs[1]) == "err" {
+				// `if x, err := f(..); err == nil {` is the assignment followed by the test
+				call, isCall := as.Rhs[0].(*ast.CallExpr)
+				if !isCall || len(call.Args) < 1 {
+					fail("%s: unsupported init %q", who, src(is.Init))
+				}
+				o, known := oracles[src(call.Fun)]
+				if !known {
+					fail("%s: unsupported call %q", who, src(is.Init))
+				}
+				cur = "(" + o + " " + src(call.Args[0]) + ")"
+				bound[src(as.Lhs[0])] = src(call.Fun)
+				cp.Init = nil
+			}
+			if cp.Init == nil {
+				cp.Cond = fixCond(is.Cond)
+			}
 			out = append(out, &cp)
 			continue
 		}
@@ -154,27 +170,50 @@ func emitByteLoop(fs *strings.Builder, p *pkg, c *consts, funcs map[string]strin
 		}
 		vars = append(vars, src(l))
 	}
-	loop, ok := list[1].(*ast.ForStmt)
-	if !ok || loop.Init == nil || loop.Cond == nil || loop.Post == nil {
+	// `for i := 0; i < len(s); i++`, `for i := range len(s)` (index) or `for _, c := range []byte(s)` / `range s` is NOT
+	// accepted (that iterates over runes)
+	var body *ast.BlockStmt
+	iv := ""
+	switch loop := list[1].(type) {
+	case *ast.ForStmt:
+		if loop.Init == nil || loop.Cond == nil || loop.Post == nil {
+			fail("%s: expected a counted loop", who)
+		}
+		init, ok := loop.Init.(*ast.AssignStmt)
+		if !ok || len(init.Lhs) != 1 || src(init.Rhs[0]) != "0" {
+			fail("%s: loop does not start at 0", who)
+		}
+		iv = src(init.Lhs[0])
+		if src(loop.Cond) != iv+" < len("+sv+")" || src(loop.Post) != iv+"++" {
+			fail("%s: loop is not `for %s := 0; %s < len(%s); %s++`", who, iv, iv, sv, iv)
+		}
+		body = loop.Body
+	case *ast.RangeStmt:
+		if src(loop.X) != "len("+sv+")" || loop.Key == nil || loop.Value != nil || loop.Tok != token.DEFINE {
+			fail("%s: expected `for i := range len(%s)`", who, sv)
+		}
+		iv = src(loop.Key)
+		body = loop.Body
+	default:
 		fail("%s: expected a counted loop", who)
 	}
-	init, ok := loop.Init.(*ast.AssignStmt)
-	if !ok || len(init.Lhs) != 1 || src(init.Rhs[0]) != "0" {
-		fail("%s: loop does not start at 0", who)
-	}
-	iv := src(init.Lhs[0])
-	if src(loop.Cond) != iv+" < len("+sv+")" || src(loop.Post) != iv+"++" {
-		fail("%s: loop is not `for %s := 0; %s < len(%s); %s++`", who, iv, iv, sv, iv)
-	}
-	if len(loop.Body.List) != 1 {
+	if len(body.List) != 1 {
 		fail("%s: loop body is not a single switch", who)
 	}
-	sw, ok := loop.Body.List[0].(*ast.SwitchStmt)
-	if !ok || sw.Tag != nil || sw.Init != nil {
+	sw, ok := body.List[0].(*ast.SwitchStmt)
+	if !ok || sw.Tag != nil {
 		fail("%s: loop body is not a tagless switch", who)
 	}
 	tuple := "(" + strings.Join(vars, ", ") + ")"
-	bt := &tr{atoms: map[string]string{sv + "[" + iv + "]": "(c.toNat : Int)"}, c: c, funcs: funcs, who: who}
+	batoms := map[string]string{sv + "[" + iv + "]": "(c.toNat : Int)"}
+	if sw.Init != nil { // `switch c := s[i]; {`
+		as, ok := sw.Init.(*ast.AssignStmt)
+		if !ok || as.Tok != token.DEFINE || len(as.Lhs) != 1 || len(as.Rhs) != 1 || src(as.Rhs[0]) != sv+"["+iv+"]" {
+			fail("%s: unsupported switch init %q", who, src(sw.Init))
+		}
+		batoms[src(as.Lhs[0])] = "(c.toNat : Int)"
+	}
+	bt := &tr{atoms: batoms, c: c, funcs: funcs, who: who}
 	action := func(body []ast.Stmt) string {
 		if len(body) != 1 {
 			fail("%s: unsupported case body", who)
@@ -274,8 +313,9 @@ func emitQuoteConds(fs *strings.Builder, p *pkg, c *consts, funcs map[string]str
 	fmt.Fprintf(fs, "/-- %s: `%s`: a quote at one end only (an error): `%s` -/\ndef %sHalf (%s : List UInt8) : Bool :=\n  %s\n\n", file, name, src(el.Cond), lean, sv, t.expr(el.Cond))
 }
 
-// emitQueryCascade records the order of the if / else-if chain in ParseQuery's loop body: which
-// parser is consulted, and whether the branch is its error or its success.
+// emitQueryCascade records the order of the cascade that types one query value - the if / else-if
+// chain in ParseQuery's loop body, or the sequence of ifs in an unexported helper the loop calls:
+// which parser is consulted, and whether the branch is its error or its success.
 func emitQueryCascade(fs *strings.Builder, p *pkg) {
 	fd, file := findFunc(p, "", "ParseQuery")
 	if fd == nil {
@@ -290,58 +330,123 @@ func emitQueryCascade(fs *strings.Builder, p *pkg) {
 	if loop == nil {
 		fail("%s:ParseQuery: `range req.Form` not found", file)
 	}
-	var chain *ast.IfStmt
-	for _, st := range loop.Body.List {
-		if is, ok := st.(*ast.IfStmt); ok {
-			chain = is
-		}
+	who := file + ":ParseQuery"
+	stmts := loop.Body.List
+	val := "val"
+	stores := func(st ast.Stmt, v string) bool { // the branch hands the parser's value on
+		t := src(st)
+		return strings.HasPrefix(t, "params[key] = ") || strings.HasPrefix(t, "return ") && strings.HasSuffix(t, ", nil") && !strings.Contains(t, "Errorf") && !strings.Contains(t, "errors.")
 	}
-	if chain == nil {
-		fail("%s:ParseQuery: no if-chain in the loop", file)
+	refuses := func(st ast.Stmt) bool {
+		t := src(st)
+		return strings.HasPrefix(t, "return ") && strings.Contains(t, "fmt.Errorf(")
+	}
+	hasChain := func(list []ast.Stmt) bool {
+		for _, st := range list {
+			if is, ok := st.(*ast.IfStmt); ok && is.Init != nil && strings.Contains(src(is.Init), "parseJSONString(") {
+				return true
+			}
+		}
+		return false
+	}
+	if !hasChain(stmts) {
+		// the loop hands the value to a helper: `x, err := helper(key, req.Form.Get(key))`
+		found := false
+		ast.Inspect(loop.Body, func(n ast.Node) bool {
+			call, ok := n.(*ast.CallExpr)
+			if !ok || found {
+				return true
+			}
+			id, ok := call.Fun.(*ast.Ident)
+			if !ok || ast.IsExported(id.Name) {
+				return true
+			}
+			hd, _ := findFunc(p, "", id.Name)
+			if hd == nil || hd.Body == nil || !hasChain(hd.Body.List) {
+				return true
+			}
+			// the parameter that receives the value
+			var names []string
+			for _, f := range hd.Type.Params.List {
+				for _, nm := range f.Names {
+					names = append(names, nm.Name)
+				}
+			}
+			for i, a := range call.Args {
+				if i < len(names) && (strings.Contains(src(a), "Form.Get(") || src(a) == "val") {
+					val = names[i]
+				}
+			}
+			stmts, found, who = hd.Body.List, true, file+":"+id.Name
+			return false
+		})
+		if !found {
+			fail("%s: the typing cascade was not found", who)
+		}
 	}
 	var items []string
 	cur := ""
-	var node ast.Stmt = chain
-	for node != nil {
-		switch v := node.(type) {
-		case *ast.IfStmt:
-			if v.Init != nil {
-				as, ok := v.Init.(*ast.AssignStmt)
-				if !ok || len(as.Rhs) != 1 {
-					fail("%s:ParseQuery: unsupported init %q", file, src(v.Init))
+	done := false
+	var walk func(node ast.Stmt)
+	walk = func(node ast.Stmt) {
+		for node != nil && !done {
+			switch v := node.(type) {
+			case *ast.IfStmt:
+				if v.Init != nil {
+					as, ok := v.Init.(*ast.AssignStmt)
+					if !ok || len(as.Rhs) != 1 {
+						fail("%s: unsupported init %q", who, src(v.Init))
+					}
+					call, ok := as.Rhs[0].(*ast.CallExpr)
+					if !ok || len(call.Args) != 1 || src(call.Args[0]) != val {
+						fail("%s: unsupported init %q", who, src(v.Init))
+					}
+					cur = src(call.Fun)
 				}
-				call, ok := as.Rhs[0].(*ast.CallExpr)
-				if !ok || len(call.Args) != 1 || src(call.Args[0]) != "val" {
-					fail("%s:ParseQuery: unsupported init %q", file, src(v.Init))
+				kind := ""
+				switch src(v.Cond) {
+				case "err != nil":
+					kind = "err"
+					if n := len(v.Body.List); n != 1 || !refuses(v.Body.List[0]) {
+						fail("%s: the error branch of %s does not return the error", who, cur)
+					}
+				case "ok":
+					kind = "ok"
+					if n := len(v.Body.List); n != 1 || !stores(v.Body.List[0], "") {
+						fail("%s: the success branch of %s does not hand the value on", who, cur)
+					}
+				default:
+					fail("%s: unsupported condition %q", who, src(v.Cond))
 				}
-				cur = src(call.Fun)
-			}
-			kind := ""
-			switch src(v.Cond) {
-			case "err != nil":
-				kind = "err"
-				if n := len(v.Body.List); n != 1 || !strings.HasPrefix(src(v.Body.List[0]), `return "", nil, `) {
-					fail("%s:ParseQuery: the error branch of %s does not return the error", file, cur)
+				items = append(items, "("+strconv.Quote(cur)+", "+strconv.Quote(kind)+")")
+				node = v.Else
+			case *ast.BlockStmt:
+				if len(v.List) != 1 || src(v.List[0]) != "params[key] = "+val {
+					fail("%s: the final branch does not store the literal value", who)
 				}
-			case "ok":
-				kind = "ok"
-				if n := len(v.Body.List); n != 1 || !strings.HasPrefix(src(v.Body.List[0]), "params[key] = ") {
-					fail("%s:ParseQuery: the success branch of %s does not store the value", file, cur)
-				}
+				items = append(items, `("", "literal")`)
+				done = true
+				node = nil
 			default:
-				fail("%s:ParseQuery: unsupported condition %q", file, src(v.Cond))
+				node = nil
 			}
-			items = append(items, "("+strconv.Quote(cur)+", "+strconv.Quote(kind)+")")
-			node = v.Else
-		case *ast.BlockStmt:
-			if len(v.List) != 1 || src(v.List[0]) != "params[key] = val" {
-				fail("%s:ParseQuery: the final branch does not store the literal value", file)
-			}
-			items = append(items, `("", "literal")`)
-			node = nil
-		default:
-			node = nil
 		}
 	}
-	fmt.Fprintf(fs, "/-- %s: the cascade of `ParseQuery`: parser consulted, branch taken (`err` = the query is refused, `ok` = the parser's value is stored) -/\ndef queryCascade : List (String × String) := [%s]\n\n", file, strings.Join(items, ", "))
+	for _, st := range stmts {
+		if done {
+			break
+		}
+		switch v := st.(type) {
+		case *ast.IfStmt:
+			if v.Init != nil || len(items) > 0 {
+				walk(v)
+			}
+		case *ast.ReturnStmt:
+			if len(items) > 0 && src(v) == "return "+val+", nil" {
+				items = append(items, `("", "literal")`)
+				done = true
+			}
+		}
+	}
+	fmt.Fprintf(fs, "/-- %s: the cascade that types one query value: parser consulted, branch taken (`err` = the query is refused, `ok` = the parser's value is handed on) -/\ndef queryCascade : List (String × String) := [%s]\n\n", who, strings.Join(items, ", "))
 }
